@@ -150,7 +150,7 @@ enum Ctr {
     CT_P_PRNG_INIT_FAIL, CT_P_PRNG_RESEED_FAIL, CT_P_PRNG_NULLCB, CT_P_PRNG_SYSTEM, CT_P_PRNG_TWIN_FLIP, CT_P_PRNG_TWIN_EQUIV,
     CT_P_TRNG_CALLS, CT_P_TRNG_SUCCESS_AFTER_RETRY, CT_P_TRNG_PERMANENT, CT_P_TRNG_FD_OPENED,
     CT_P_FREE_CHECKED, CT_P_FREE_NEVER_INIT, CT_P_FREE_MID, CT_P_FREE_AFTER_FINAL, CT_P_FREE_TWICE, CT_P_CLEAN_CHECKED,
-    CT_P_MIX_SERIAL_COMPARED, CT_P_MIX_REORDER_COMPARED, CT_P_HEAP_CALLS,
+    CT_P_MIX_SERIAL_COMPARED, CT_P_MIX_REORDER_COMPARED, CT_P_HEAP_CALLS, CT_ASAN_READ_OBS,
     CT_COUNT
 };
 const char *ctr_name(int c);
@@ -182,7 +182,7 @@ struct TaskState;
 enum { ST_DEAD = 0, ST_LIVE = 1, ST_FINAL = 2 };
 
 struct HashObj { Slot m; int st = ST_DEAD; bool ever_init = false, freed = false; std::vector<uint8_t> msg; };
-struct HmacObj { Slot m; int st = ST_DEAD; bool ever_init = false; std::vector<uint8_t> key; bool key_null = false; std::vector<uint8_t> msg; };
+struct HmacObj { Slot m; int st = ST_DEAD; bool ever_init = false; std::vector<uint8_t> key, keybuf; bool key_null = false; std::vector<uint8_t> msg; };
 struct HkdfObj {
     Slot m; int st = ST_DEAD;
     std::vector<uint8_t> prk, info, stream; // stream = T(1)||T(2)||... computed lazily by the model
@@ -234,7 +234,7 @@ struct CurOp {                 // context of the op currently executing in a tas
     bool os_active = false, os_auto = false; size_t os_pos = 0; int os_terminal = -1; // -1 none, 0 success, >0 errno
     int os_calls = 0; int os_extra = 0; long req_emitted = -1;
     uint8_t os_last_ok[32]; bool os_have_ok = false;
-    int fds_open = 0; int fd_next = 0; int opens = 0, closes = 0;
+    int fds_open = 0; int fd_next = 0; int opens = 0, closes = 0; int fds[16]; int nfds = 0;
     bool in_call = false;      // a library call is on this task's stack
     int entry_errno = 0;       // errno value installed at every library entry of this op (plan data)
 };
@@ -286,6 +286,9 @@ struct World {
 };
 
 extern World *g_world;
+// AddressSanitizer reports seen so far in this process (san variant; recover mode, so execution continues)
+extern volatile uint64_t g_asan_reports, g_asan_writes;
+extern char g_asan_first[256];
 
 // core
 void world_run(World &w);                       // run all tasks of w.plan under the schedule
